@@ -103,6 +103,37 @@ def refute_partial(stats, hyps, goal, named, what, tries=6, keep=2):
     vars_ = [(k, t) for k, t in named.items() if z3.is_const(t) and t.decl().kind() == z3.Z3_OP_UNINTERPRETED]
     if not vars_:
         return None
+    ints = [(k, t) for k, t in vars_ if z3.is_int(t)]
+    if ints and len(ints) == len(vars_):
+        # integer domain (64-bit limbs): every named input fixed to a structured value (0, 1, 2^64-1, 2^63, small, random);
+        # the remaining variables are the definitional quotients / remainders, which the facts determine
+        budget = time.time() + float(os.environ.get("VERIF_REFUTE_SECONDS", "90"))
+        n = 0
+        while time.time() < budget and n < 400:
+            n += 1
+            subs = []
+            zero_bias = rnd.choice([0.2, 0.5, 0.8])
+            for k, t in ints:
+                u = rnd.random()
+                if u < zero_bias:
+                    v = 0
+                else:
+                    v = rnd.choice([1, (1 << 64) - 1, 1 << 63, rnd.getrandbits(8), rnd.getrandbits(64), rnd.getrandbits(64), (1 << 64) - 1 - rnd.getrandbits(4)])
+                subs.append((t, z3.IntVal(v)))
+            hs = [z3.simplify(z3.substitute(h, *subs)) for h in hyps]
+            if any(z3.is_false(h) for h in hs):
+                continue
+            g = z3.simplify(z3.substitute(goal, *subs))
+            if z3.is_true(g):
+                continue
+            st, m, dt = smt.prove([h for h in hs if not z3.is_true(h)], g, 5, stats)
+            if st == smt.SAT:
+                stats.log.append((what + " [structured instance %d]" % n, st, round(dt, 3)))
+                return {str(t): hex(v.as_long()) for t, v in subs}
+        stats.log.append((what + " [%d structured instances, none refutes]" % n, "none", 0))
+        if os.environ.get("VERIF_DEBUG"):
+            print("refute_partial: %d structured instances tried for %s" % (n, what[:60]), file=sys.stderr)
+        return None
     for i in range(tries):
         free = set(rnd.sample(range(len(vars_)), min(keep if i % 2 else 0, len(vars_))))
         subs = []
@@ -247,9 +278,45 @@ def run_obligation(name, functions, bound, body, stubs=None):
         return Result(name, "mirsmt", INCONCLUSIVE, "engine error: %s | %s" % (e, tb[-700:]), stats.seconds, functions, bound, stubs)
 
 
+def preload_crates():
+    """dump and parse, ONCE per check run and before the workers are forked, the MIR of every gm-rs crate named in the
+    property modules that are loaded (each worker would otherwise regenerate the same dump: ~5-9 s each)"""
+    import re as _re
+    from load import load_crate, _cache
+    propdir = os.path.join(os.path.dirname(os.path.dirname(os.path.abspath(__file__))), "props")
+    want = []
+    for m in list(sys.modules.values()):
+        f = getattr(m, "__file__", None) or ""
+        if os.path.dirname(os.path.abspath(f)) != propdir:
+            continue
+        try:
+            src = open(f).read()
+        except OSError:
+            continue
+        for c in _re.findall(r'"(gm-(?:sm2|sm3|sm4|sm9|zuc))"', src):
+            if c not in want and c not in _cache:
+                want.append(c)
+    if not want:
+        return
+    import threading
+    errs = []
+    def one(c):
+        try:
+            load_crate(c)
+        except Exception as e:  # noqa  (the workers will report the failure themselves)
+            errs.append((c, e))
+    ts = [threading.Thread(target=one, args=(c,)) for c in want]
+    for t in ts:
+        t.start()
+    for t in ts:
+        t.join()
+
+
 def run_parallel(jobs, nproc=14):
     """jobs: list of zero-arg callables returning Result; fork-based (closures are fine)."""
     import pickle, tempfile
+    if len(jobs) > 1 and nproc > 1:
+        preload_crates()
     if len(jobs) <= 1 or nproc <= 1:
         return [j() for j in jobs]
     results = [None] * len(jobs)
